@@ -88,6 +88,7 @@ func newCertKit(t *testing.T, dir string) *certKit {
 	k.creds["selfSigned"] = mkLeaf("peer", "proxy.test", nil, nil, future, both)
 	k.creds["otherCA"] = mkLeaf("peer", "proxy.test", ca2, ca2Key, future, both)
 	k.creds["expired"] = mkLeaf("peer", "proxy.test", ca1, ca1Key, time.Now().Add(-time.Hour), both)
+	k.creds["expiredRecently"] = mkLeaf("peer", "proxy.test", ca1, ca1Key, time.Now().Add(-90*time.Second), both) // inside any "clock skew tolerance"
 	k.creds["wrongUsage.client"] = mkLeaf("peer", "proxy.test", ca1, ca1Key, future, []x509.ExtKeyUsage{x509.ExtKeyUsageServerAuth})
 	k.creds["wrongUsage.server"] = mkLeaf("peer", "proxy.test", ca1, ca1Key, future, []x509.ExtKeyUsage{x509.ExtKeyUsageClientAuth})
 	// multi-certificate presentations. TLS proves possession of the key of the FIRST certificate only: a peer may append
@@ -242,7 +243,7 @@ func TestC19(t *testing.T) {
 	dir := filepath.Join(e.Out, "certs")
 	_ = os.MkdirAll(dir, 0o700)
 	k := newCertKit(t, dir)
-	creds := []string{"validChain", "wrongName", "selfSigned", "otherCA", "expired", "wrongUsage", "borrowedChain", "validPlusCA", "none"}
+	creds := []string{"validChain", "wrongName", "selfSigned", "otherCA", "expired", "expiredRecently", "wrongUsage", "borrowedChain", "validPlusCA", "none"}
 	var cases []tlsCase
 	for _, hc := range []bool{true, false} {
 		for _, sn := range []bool{true, false} {
